@@ -428,6 +428,17 @@ func (e *OpExpr7) ToExpr(expr *biscuit.Expression, parameters ParametersMap) {
 	e.Operator.ToExpr(expr)
 }
 
+// checkExprTerms reports the terms that ExprTerm.ToExpr could not convert (it has no way to return
+// the error itself): an unbound parameter or a variable inside a set leaves a nil term behind.
+func checkExprTerms(expr biscuit.Expression) error {
+	for _, op := range expr {
+		if v, ok := op.(biscuit.Value); ok && v.Term == nil {
+			return errors.New("parser: invalid term in expression: unbound parameter or variable inside a set")
+		}
+	}
+	return nil
+}
+
 func (op *Operator) ToExpr(expr *biscuit.Expression) {
 
 	var biscuit_op biscuit.Op
@@ -586,6 +597,9 @@ func (r *Rule) ToBiscuit(parameters ParametersMap) (*biscuit.Rule, error) {
 			{
 				var expr biscuit.Expression
 				(*p.Expression).ToExpr(&expr, parameters)
+				if err := checkExprTerms(expr); err != nil {
+					return nil, err
+				}
 
 				expressions = append(expressions, expr)
 			}
@@ -638,6 +652,9 @@ func (r *CheckQuery) ToBiscuit(parameters ParametersMap) (*biscuit.Rule, error) 
 			{
 				var expr biscuit.Expression
 				(*p.Expression).ToExpr(&expr, parameters)
+				if err := checkExprTerms(expr); err != nil {
+					return nil, err
+				}
 
 				expressions = append(expressions, expr)
 			}
